@@ -1,12 +1,15 @@
 #!/bin/sh
-# Offline setup: warm the Go build cache by compiling every check's test binary.
-set -e
+# Offline setup: warm the Go build cache by compiling the test binary of every
+# package a registered check uses (checks rebuild from /repo on every run).
 cd "$(dirname "$0")"
 export GOFLAGS=-mod=mod GOPROXY=off GOSUMDB=off GOTOOLCHAIN=local
 mkdir -p .build evidence
+pkgs=$(python3 -c "import json;print(' '.join(sorted({v['pkg'] for v in json.load(open('checks.json')).values()})))")
 cd harness
-for p in $(go1.26.8 list ./... 2>/dev/null | grep -v /internal/ | grep -v '/cmd/'); do
-  n=$(echo "$p" | sed 's#verifharness/##; s#/#_#g')
-  go1.26.8 test -c -tags verif -vet=off -o ../.build/$n.test "$p" || exit 1
+rc=0
+for p in $pkgs; do
+  n=$(echo "$p" | sed 's#^\./##; s#/#_#g')
+  go1.26.8 test -c -tags verif -vet=off -o ../.build/$n.test "$p" || rc=1
 done
-echo setup ok
+[ $rc = 0 ] && echo setup ok
+exit $rc
